@@ -99,13 +99,16 @@ def _render(cmds):
 
 def _variants(desc, cmds, under_test):
     """(v2-ish commands as (result or None, NAME, args)), reference v3 commands) for every NewFieldName/OutFileName/mixed variant"""
-    for with_new in (True, False):
+    for with_new in (True, "first", False):
         for with_out in (False, True):
             v2 = []
             for i, (nm, args, new) in enumerate(cmds):
                 a = list(args)
                 if new is not None and (with_new or i != under_test):
-                    a.append(("NewFieldName", new))
+                    if with_new == "first":
+                        a.insert(0, ("NewFieldName", new))  # keyword arguments may come in any order
+                    else:
+                        a.append(("NewFieldName", new))
                 if with_out and i == under_test:
                     a.insert(0, ("OutFileName", "out_%d.csv" % i))
                 v2.append((nm, a))
@@ -136,7 +139,7 @@ def _variants(desc, cmds, under_test):
                         # every command written in result form with its EEMS 2.0 name (no bare command in the file): still EEMS 2.0 commands
                         named = [(r[0], nm, a) for r, (nm, a) in zip(ref, v2)]
                         yield {"with_new": with_new, "with_out": with_out, "mixed": "result-form-eems2-names", "defined": True}, named, ref
-                    if mixed is None and defined and with_new and not with_out:
+                    if mixed is None and defined and with_new is True and not with_out:
                         # MPilot-style commands that themselves carry OutFileName / NewFieldName, inside an EEMS-2 file: they are not
                         # EEMS-2 commands, the reference rewriting leaves them untouched
                         last = ref[-1][0]
